@@ -30,7 +30,8 @@ THEOREMS = [
     "C13_stream_json_sqlite_keep_offset_partial", "C13_stream_json_sqlite_refuted",
     "C13_civil_days_inverse", "C13_micros_roundtrip", "C13_micros_roundtrip_inverse", "C13_avro_keeps_instant",
     "C13_avro_guard_branch", "C13_avro_utc_unchanged", "C13_avro_out_of_range_refused",
-    "C13_display_setting_irrelevant",
+    "C13_display_setting_irrelevant", "C13_generated_sqlite_columns", "C13_sqlite_created_and_added_column_partial",
+    "C13_sqlite_text_column_refuted", "C13_every_route_coerces", "C13_route_without_constructor_refuted",
 ]
 
 UTC = _pydt.timezone.utc
@@ -44,8 +45,9 @@ ZONES = ["Europe/Amsterdam", "America/New_York", "Australia/Lord_Howe", "Asia/Ka
          "America/St_Johns", "Pacific/Apia", "Africa/Casablanca", "America/Caracas", "Asia/Tehran"]
 SETTINGS = [
     {}, {"FLOW_RECORD_TZ": "NONE"}, {"FLOW_RECORD_TZ": "Europe/Amsterdam"}, {"FLOW_RECORD_TZ": "America/New_York"},
-    {"TZ": "America/New_York"}, {"TZ": "Asia/Kathmandu", "FLOW_RECORD_TZ": "Australia/Lord_Howe"},
+    {"TZ": "America/New_York"}, {"TZ": "Asia/Kathmandu", "FLOW_RECORD_TZ": "Australia/Lord_Howe"}, {"TZ": "Asia/Kolkata"},
 ]
+SMOKE_ENVS = [{}, {"TZ": "Asia/Kolkata"}]
 G_WALL = (2020, 1, 1, 0, 0, 0, 0)
 
 
@@ -55,6 +57,13 @@ def obs(d):
     """(wall clock fields, utcoffset in microseconds or None)"""
     off = d.utcoffset()
     return (d.year, d.month, d.day, d.hour, d.minute, d.second, d.microsecond, None if off is None else off // US)
+
+
+def obs_any(v):
+    """observation of whatever a timestamp field holds"""
+    if isinstance(v, _pydt.datetime):
+        return obs(v)
+    return ("EXC", "holds %s %r" % (type(v).__name__, v))
 
 
 def micros_of(o):
@@ -434,10 +443,11 @@ def classify(f):
     shorter than one second went through ISO text and came back with the same wall clock and offset 0."""
     def sub(off):
         return off is not None and 0 < abs(off) < 10 ** 6
-    if f["kind"] == "coercion" and f["spec"]["form"] == "text" and isinstance(f["got"], list):
+    if f["kind"] in ("coercion", "route", "smoke") and f["spec"]["form"] == "text" and isinstance(f.get("got"), list) \
+            and f["got"] and f["got"][0] != "EXC" and len(f["got"]) == 8:
         if sub(f["want"][7]) and f["got"][:7] == f["want"][:7] and f["got"][7] == 0:
             return "subsecond-offset-text"
-    if f["kind"] == "roundtrip" and f["format"] in ("records", "jsonl", "sqlite") and f["back"][0] != "EXC":
+    if f["kind"] in ("roundtrip", "sqlite-evolution") and f["format"] in ("records", "jsonl", "sqlite") and f["back"][0] != "EXC":
         w, b = f["written"], f["back"]
         if sub(w[7]) and list(b[:7]) == list(w[:7]) and b[7] == 0:
             return "subsecond-offset-text"
@@ -497,6 +507,262 @@ def legacy_avro_cases(ctx, rnd):
     except Exception as e:  # noqa
         out = [(v, ("EXC", "%s: %s" % (type(e).__name__, e))) for v in vals]
     return out
+
+
+
+# ------------------------------------------------------------------------------------------ entry routes
+
+def pick_specs(specs, limit):
+    """a compact subset with every (input form, tz kind, fold/gap class, fold, extreme year) combination"""
+    picked, seen = [], set()
+    for s in specs:
+        k = (s["form"], s["tz"]["kind"], s.get("class"), s["tz"].get("fold"), s["wall"][0] in (1, 9999) if s.get("wall") else None)
+        if k not in seen:
+            seen.add(k)
+            picked.append(s)
+    rest = [s for s in specs if s not in picked]
+    step = max(1, len(rest) // max(1, limit - len(picked))) if limit > len(picked) else 0
+    if step:
+        picked += rest[::step][: limit - len(picked)]
+    return picked[:limit]
+
+
+def route_checks(ctx, specs, count=True):
+    """Every way a timestamp enters a record x every input form: the field must hold an aware datetime with the
+    expected wall clock and offset (= what the constructor gives = what the model gives), and that value must
+    survive the storage formats.  -> failures"""
+    from flow.record import RecordReader, RecordWriter, fieldtypes
+    from vf.factgen import c13 as fg
+    ds = fg.route_descriptors()
+    sub = pick_specs(specs, 45 if ctx.tier == "quick" else 400)
+    fails = []
+    plain, meta, grouped, lists = {}, {}, [], []
+    k = 0
+    for s in sub:
+        want = expected_obs(s)
+        for _, route in fg.ROUTES:
+            idx = 10 ** 6 + k
+            k += 1
+            e = None
+            try:
+                inp = build_input(s)
+                if s["form"] == "fieldobject":
+                    inp = fieldtypes.datetime(inp)
+                e = fg.enter_route(route, inp, idx, ds)
+                got = obs_any(e["value"])
+                if "member_value" in e and got[0] != "EXC" and obs_any(e["member_value"]) != got:
+                    got = ("EXC", "grouped view shows %s but the member holds %s" % (list(got), list(obs_any(e["member_value"]))))
+            except Exception as ex:  # noqa
+                got = ("EXC", "%s: %s" % (type(ex).__name__, ex))
+            if count:
+                ctx.count_case(spec_key(s) + ("route", route), nontrivial=True)
+            if got[0] == "EXC" or got[7] is None or tuple(got) != tuple(want):
+                fails.append(dict(kind="route", route=route, spec=s, got=list(got), want=list(want)))
+                continue
+            if e["record"] is not None:
+                plain[idx] = e["record"]
+                meta[idx] = (s, route)
+            if e["grouped"] is not None:
+                grouped.append((idx, s, route, e["grouped"], want))
+            if e["listrec"] is not None:
+                lists.append((idx, s, route, e["listrec"], want))
+    # plain records: all four formats
+    for fmt in FORMATS:
+        back = roundtrip(fmt, plain, str(ctx.work), tag="route")
+        for idx, b in back.items():
+            w = obs(plain[idx].ts)
+            why = judge(fmt, w, b)
+            if count:
+                ctx.count_case(spec_key(meta[idx][0]) + ("route", meta[idx][1], fmt), nontrivial=True)
+            if why:
+                fails.append(dict(kind="roundtrip", format=fmt, route=meta[idx][1], spec=meta[idx][0], written=list(w), back=list(b), why=why))
+    # grouped records: record stream
+    if grouped:
+        path = os.path.join(str(ctx.work), "route_grouped.records")
+        try:
+            w = RecordWriter(path)
+            for _, _, _, g, _ in grouped:
+                w.write(g)
+            w.flush()
+            w.close()
+            rd = RecordReader(path)
+            got = {int(x.i): obs_any(x.ts) for x in rd}
+            rd.close()
+        except Exception as ex:  # noqa
+            got = {}
+            fails.append(dict(kind="roundtrip", format="records", route=grouped[0][2], spec=grouped[0][1], written=list(grouped[0][4]),
+                              back=["EXC", "%s: %s" % (type(ex).__name__, ex)], why="grouped records: raised %s: %s" % (type(ex).__name__, ex)))
+        for idx, s, route, g, want in grouped:
+            if idx in got:
+                why = judge("records", want, got[idx])
+                if count:
+                    ctx.count_case(spec_key(s) + ("route", route, "records-grouped"), nontrivial=True)
+                if why:
+                    fails.append(dict(kind="roundtrip", format="records", route=route, spec=s, written=list(want), back=list(got[idx]),
+                                      why="grouped record: " + why))
+    # datetime[] elements: the formats that carry lists (record stream, JSON)
+    for fmt in ("records", "jsonl"):
+        if not lists:
+            break
+        path = os.path.join(str(ctx.work), "route_list." + fmt)
+        try:
+            w = RecordWriter(path)
+            for _, _, _, lr, _ in lists:
+                w.write(lr)
+            w.flush()
+            w.close()
+            rd = RecordReader(path)
+            got = {int(x.i): (obs_any(x.tss[0]) if x.tss else ("EXC", "empty list")) for x in rd}
+            rd.close()
+        except Exception as ex:  # noqa
+            got = {idx: ("EXC", "%s: %s" % (type(ex).__name__, ex)) for idx, *_ in lists[:1]}
+        for idx, s, route, lr, want in lists:
+            if idx in got:
+                why = judge(fmt, want, got[idx])
+                if count:
+                    ctx.count_case(spec_key(s) + ("route", route, fmt), nontrivial=True)
+                if why:
+                    fails.append(dict(kind="roundtrip", format=fmt, route=route, spec=s, written=list(want), back=list(got[idx]),
+                                      why="datetime[] element: " + why))
+    ctx.notes.append("entry routes: %d inputs x %d routes (%s); plain records through 4 formats, grouped records through the record "
+                     "stream, datetime[] through records/jsonl" % (len(sub), len(fg.ROUTES), ", ".join(r for _, r in fg.ROUTES)))
+    return fails
+
+
+# ------------------------------------------------------------------------------------------ SQLite descriptor evolution
+
+def evolution_checks(ctx, specs, recs, count=True):
+    """A record type that gains a timestamp field after its table exists (same writer, a later writer session, and
+    a later session after more old-type rows): the added column must return aware timestamps like a created one."""
+    from flow.record import RecordDescriptor, RecordReader, RecordWriter
+    Small = RecordDescriptor("verif/c13evo", [("varint", "i")])
+    Large = RecordDescriptor("verif/c13evo", [("varint", "i"), ("datetime", "ts")])
+    G = _pydt.datetime(*G_WALL, tzinfo=UTC)
+    sub = [s for s in pick_specs([s for s in specs if s["i"] in recs], 30 if ctx.tier == "quick" else 200)]
+    fails = []
+    for scenario in ("same-writer", "later-session", "later-session-after-more-rows", "created-with-column"):
+        path = os.path.join(str(ctx.work), "evo_%s.sqlite" % scenario)
+        if os.path.exists(path):
+            os.unlink(path)
+        try:
+            w = RecordWriter("sqlite://" + path)
+            if scenario != "created-with-column":
+                w.write(Small(i=-1, _generated=G))
+            if scenario == "later-session-after-more-rows":
+                w.write(Small(i=-2, _generated=G))
+            if scenario.startswith("later-session"):
+                w.close()
+                w = RecordWriter("sqlite://" + path)
+            for s in sub:
+                w.write(Large(i=s["i"], ts=recs[s["i"]].ts, _generated=G))
+            w.write(Small(i=-3, _generated=G))
+            w.close()
+            rd = RecordReader("sqlite://" + path)
+            got = {}
+            nrows = 0
+            for x in rd:
+                nrows += 1
+                if int(x.i) >= 0:
+                    got[int(x.i)] = obs_any(getattr(x, "ts", None))
+            rd.close()
+        except Exception as ex:  # noqa
+            fails.append(dict(kind="sqlite-evolution", format="sqlite", scenario=scenario, spec=sub[0] if sub else None,
+                              written=[], back=["EXC", "%s: %s" % (type(ex).__name__, ex)], why="raised %s: %s" % (type(ex).__name__, ex)))
+            continue
+        for s in sub:
+            w_ = obs(recs[s["i"]].ts)
+            b = got.get(s["i"], ("EXC", "row missing"))
+            why = judge("sqlite", w_, b)
+            if count:
+                ctx.count_case(spec_key(s) + ("sqlite-evolution", scenario), nontrivial=True)
+            if why:
+                fails.append(dict(kind="sqlite-evolution", format="sqlite", scenario=scenario, spec=s, written=list(w_), back=list(b), why=why))
+    ctx.notes.append("sqlite descriptor evolution: 4 scenarios x %d timestamps" % len(sub))
+    return fails
+
+
+# ------------------------------------------------------------------------------------------ fresh-process smoke
+
+def smoke_main(specfile, outdir, fmt):
+    """Fresh interpreter, nothing imported but flow.record's top-level names: build, write, read."""
+    from flow.record import RecordDescriptor, RecordReader, RecordWriter
+    specs = json.load(open(specfile))
+    D = RecordDescriptor("verif/c13", [("varint", "i"), ("datetime", "ts")])
+    G = _pydt.datetime(*G_WALL, tzinfo=UTC)
+    res = dict(field={}, back={}, error=None, modules=sorted(m for m in sys.modules if m.startswith("flow")))
+    recs = []
+    for s in specs:
+        try:
+            r = D(i=s["i"], ts=build_input(s), _generated=G)
+            res["field"][s["i"]] = list(obs_any(r.ts))
+            if isinstance(r.ts, _pydt.datetime) and (fmt != "avro" or MIN_MICROS <= micros_of(obs(r.ts)) <= MAX_MICROS):
+                recs.append(r)
+        except Exception as e:  # noqa
+            res["field"][s["i"]] = ["EXC", "%s: %s" % (type(e).__name__, e)]
+    path = os.path.join(outdir, "smoke." + fmt)
+    try:
+        w = RecordWriter(uri_of(fmt, path))
+        for r in recs:
+            w.write(r)
+        w.close()
+        rd = RecordReader(uri_of(fmt, path))
+        for x in rd:
+            res["back"][int(x.i)] = list(obs_any(x.ts))
+        rd.close()
+    except Exception as e:  # noqa
+        res["error"] = "%s: %s" % (type(e).__name__, e)
+    json.dump(res, sys.stdout)
+
+
+def smoke_checks(ctx, specs, count=True):
+    sub = [dict(s, form="object") if s["form"] == "fieldobject" else s for s in pick_specs(specs, 24)]
+    sub += [s for s in specs if s["form"].startswith("epoch")][:12]
+    seen = set()
+    sub = [s for s in sub if not (s["i"] in seen or seen.add(s["i"]))]
+    specfile = ctx.work / "smoke_specs.json"
+    specfile.write_text(json.dumps(sub))
+    procs = []
+    for k, envx in enumerate(SMOKE_ENVS):
+        for fmt in FORMATS:
+            outdir = ctx.work / ("smoke%d_%s" % (k, fmt))
+            outdir.mkdir(exist_ok=True)
+            env = core.env_for_repo()
+            env.pop("TZ", None)
+            env.update(envx)
+            procs.append((envx, fmt, subprocess.Popen([core.PY, "-m", "vf.props.c13", "smoke", str(specfile), str(outdir), fmt],
+                                                      env=env, stdout=subprocess.PIPE, stderr=subprocess.PIPE, text=True, cwd=str(ctx.work))))
+    fails = []
+    for envx, fmt, p in procs:
+        try:
+            out, err = p.communicate(timeout=120)
+        except subprocess.TimeoutExpired:
+            p.kill()
+            out, err = "", "timeout"
+        if p.returncode != 0 or not out.strip():
+            fails.append(dict(kind="smoke", format=fmt, env=envx, spec=sub[0], got=["EXC", (err or "")[-500:]], want=[],
+                              why="fresh process (%s, env %r) failed: %s" % (fmt, envx, (err or "")[-500:])))
+            continue
+        r = json.loads(out)
+        for s in sub:
+            want = expected_obs(s)
+            got = r["field"].get(str(s["i"]))
+            if count:
+                ctx.count_case(spec_key(s) + ("smoke", fmt, json.dumps(envx, sort_keys=True)), nontrivial=True)
+            if got is None or got[0] == "EXC" or tuple(got) != tuple(want):
+                fails.append(dict(kind="smoke", format=fmt, env=envx, spec=s, got=got, want=list(want),
+                                  why="fresh process (env %r): field holds %s, expected %s" % (envx, got, list(want))))
+                continue
+            if fmt == "avro" and not (MIN_MICROS <= micros_of(want) <= MAX_MICROS):
+                continue
+            b = r["back"].get(str(s["i"]))
+            if b is None:
+                b = ["EXC", r["error"] or "record missing from the output"]
+            why = judge(fmt, tuple(want), tuple(b))
+            if why:
+                fails.append(dict(kind="roundtrip", format=fmt, env=envx, spec=s, written=list(want), back=list(b),
+                                  why="fresh process (env %r): %s" % (envx, why)))
+    ctx.notes.append("fresh-process smoke: %d processes (4 formats x %r) x %d inputs" % (len(procs), SMOKE_ENVS, len(sub)))
+    return fails
 
 
 # ------------------------------------------------------------------------------------------ Coq side
@@ -721,15 +987,10 @@ def child_main(specfile, outdir):
 
 
 def display_specs(specs):
-    """a compact subset with every kind of input"""
-    picked, seen = [], set()
-    for s in specs:
-        k = (s["form"], s["tz"]["kind"], s.get("class"), s["tz"].get("fold"), s["wall"][0] in (1, 9999) if s.get("wall") else None)
-        c = sum(1 for x in seen if x == k)
-        if k not in seen or (len(picked) < 90 and s["i"] % 7 == 0):
-            seen.add(k)
-            picked.append(s)
-    return picked[:140]
+    """a compact subset with every kind of input, and a dozen epoch numbers (local-time TZ settings matter there)"""
+    sub = pick_specs(specs, 110) + [s for s in specs if s["form"].startswith("epoch")][:12]
+    seen = set()
+    return [s for s in sub if not (s["i"] in seen or seen.add(s["i"]))]
 
 
 def display_checks(ctx, specs, known_classes=()):
@@ -826,8 +1087,15 @@ def describe(f):
         inp = "?"
     if f["kind"] == "coercion":
         return "timestamp field built from %s is %s, expected (wall clock, offset) %s" % (inp, f["got"], f["want"])
+    if f["kind"] == "route":
+        return "timestamp %s entering a record by %s: field %s, expected an aware datetime (wall clock, offset) %s" % (
+            inp, f["route"], f["got"], f["want"])
     if f["kind"] == "roundtrip":
-        return "%s written as %s to %s: %s" % (inp, f["written"], f["format"], f["why"])
+        via = " (entered by %s)" % f["route"] if f.get("route") else ""
+        return "%s%s written as %s to %s: %s" % (inp, via, f["written"], f["format"], f["why"])
+    if f["kind"] == "sqlite-evolution":
+        return "%s written as %s to a SQLite table that gained its timestamp column later (%s): %s" % (
+            inp, f["written"], f["scenario"], f["why"])
     return "%s (input %s)" % (f["why"], inp)
 
 
@@ -844,6 +1112,14 @@ def search(ctx, reason):
         kf = core.known_for("C13")
         recs, backs, fails = impl_checks(ctx, specs)
         fails = [f for f in fails if not any(k.get("match", {}).get("class") == classify(f) for k in kf if classify(f))]
+        def unknown(fs):
+            return [f for f in fs if not any(k.get("match", {}).get("class") == classify(f) for k in kf if classify(f))]
+        if not fails:
+            fails = unknown(route_checks(ctx, specs))
+        if not fails:
+            fails = unknown(evolution_checks(ctx, specs, recs))
+        if not fails:
+            fails = unknown(smoke_checks(ctx, specs))
         if not fails:
             fails, _ = display_checks(ctx, specs, [k.get("match", {}).get("class") for k in kf])
         if not fails:
@@ -870,7 +1146,10 @@ def run(ctx):
         "(UTC, ZoneInfo('UTC'), fixed offsets with minute/second/microsecond precision up to +-23:59:59.999999, IANA zones incl. "
         "computed fold and gap wall times with fold 0 and 1, naive) x input forms (object, field-type object, ISO text from "
         "isoformat / with 'Z' / with ' ', epoch int, exactly representable epoch float) x formats (records, jsonl, sqlite, avro). "
-        "distinct = distinct (input form, wall clock, tz, text/number, format); a case is trivial only when it is a plain "
+        "Plus: entry routes (constructor kw/positional, setattr, _replace, grouped/nested-grouped setattr, grouped _replace, "
+        "init_from_dict/record, extend_record, datetime[] by constructor/assignment) x input forms x formats; SQLite descriptor "
+        "evolution (column added later: same writer / later session); fresh-process smoke per format incl. TZ=Asia/Kolkata; "
+        "display settings. distinct = distinct (input form, wall clock, tz, text/number, leg, format); a case is trivial only when it is a plain "
         "object input in UTC between 1971 and 2037")
     ok = core.standard_proof_stage(ctx, ["props/C13.vo"], "C13", THEOREMS, search_fn=search, gens=["gen_time"])
     ctx.assumptions += [
@@ -896,6 +1175,9 @@ def run(ctx):
             coerced[f["spec"]["i"]] = tuple(f["got"])
     if report(ctx, split_known(ctx, fails, kf)):
         return
+    for leg in (lambda: route_checks(ctx, specs), lambda: evolution_checks(ctx, specs, recs), lambda: smoke_checks(ctx, specs)):
+        if report(ctx, split_known(ctx, leg(), kf)):
+            return
     legacy = legacy_avro_cases(ctx, random.Random(ctx.seed))
     terms, metas = coq_cases(specs, recs, backs, legacy, coerced)
     failing, err = core.eval_bool_cases(ctx, HEADER, terms, shard_size=150, name="c13")
@@ -964,6 +1246,32 @@ def replay(obj):
         finally:
             import shutil
             shutil.rmtree(_C.work, ignore_errors=True)
+    if kind in ("route", "sqlite-evolution") and spec:
+        import shutil
+
+        class _C2:
+            work = core.WORK / ("C13.replay.%d" % os.getpid())
+            tier = "quick"
+            notes = []
+
+            @staticmethod
+            def count_case(*a, **k):
+                pass
+        _C2.work.mkdir(parents=True, exist_ok=True)
+        try:
+            if kind == "route":
+                fails = [f for f in route_checks(_C2, [spec], count=False) if f.get("route") == obj.get("route")]
+            else:
+                recs, fails = make_records([spec])
+                if not fails:
+                    fails = [f for f in evolution_checks(_C2, [spec], recs, count=False) if f.get("scenario") == obj.get("scenario")]
+            for f in fails[:3]:
+                print("replay: " + describe(f))
+            if not fails:
+                print("replay: %s holds for %s" % (kind, describe(dict(kind="x", why="", spec=spec))))
+            return 1 if fails else 0
+        finally:
+            shutil.rmtree(_C2.work, ignore_errors=True)
     print("replay of kind %s: re-run ./check C13" % kind)
     return 2
 
@@ -971,3 +1279,5 @@ def replay(obj):
 if __name__ == "__main__":
     if len(sys.argv) == 4 and sys.argv[1] == "child":
         child_main(sys.argv[2], sys.argv[3])
+    elif len(sys.argv) == 5 and sys.argv[1] == "smoke":
+        smoke_main(sys.argv[2], sys.argv[3], sys.argv[4])
